@@ -4,7 +4,7 @@ use nom::{
 };
 use std::{
     fmt::{self, Display},
-    io,
+    io::{self, Read},
     marker::PhantomData,
     path::PathBuf,
 };
@@ -28,10 +28,17 @@ where
         input.read_exact(&mut buf)?;
         let index_header = IndexHeader::parse(&buf)?;
         // read rest of header (index + data portions)
-        let size_rest =
-            (index_header.data_section_size + index_header.num_entries * INDEX_ENTRY_SIZE) as usize;
-        let mut buf = vec![0; size_rest];
-        input.read_exact(&mut buf)?;
+        let size_rest = index_header.data_section_size as u64
+            + index_header.num_entries as u64 * INDEX_ENTRY_SIZE as u64;
+        // do not trust the sizes in the intro - only allocate what is actually there
+        let mut buf = Vec::new();
+        io::Read::take(&mut *input, size_rest).read_to_end(&mut buf)?;
+        if (buf.len() as u64) < size_rest {
+            return Err(Error::Io(io::Error::new(
+                io::ErrorKind::UnexpectedEof,
+                "header is shorter than its index header claims",
+            )));
+        }
         Self::parse_header(index_header, &buf[..])
     }
 
